@@ -44,4 +44,6 @@ def nernst_potential(
         F = constants.Faraday_constant
         R = constants.molar_gas_constant
 
-    return (R * T) / (charge * F) * backend.log(ion_conc_out / ion_conc_in)
+    ratio = ion_conc_out / ion_conc_in
+    ratio = getattr(ratio, "simplified", ratio)  # e.g. mM/M -> dimensionless
+    return (R * T) / (charge * F) * backend.log(ratio)
